@@ -42,7 +42,7 @@ theorem expandOne_keep {N : ℕ} {g : Gate} (hg : InClass N g) {a : List Gate}
   unfold expandOne at h
   split at h
   · obtain ⟨inB, hsb⟩ := splitBasis_strCNOT
-    have hnames := resolve_names_core true (.str .CNOT) [g] a _ _ inB hsb (by simp) (by decide)
+    have hnames := resolve_names_core true cnotBasis [g] a _ _ inB hsb (by simp) (by decide)
       (by decide) (by decide) (by simpa using hg.2) h
     intro x hx
     have hn := (List.all_eq_true.mp hnames) x hx
